@@ -228,6 +228,24 @@ def _accessor_uses(f):
     for n in own_nodes(f.node):
         if isinstance(n, ast.Name) and isinstance(n.ctx, ast.Load) and n.id in aliases:
             classify(n, aliases[n.id])
+    # a walk over ALL children that sorts them by context class consumes each of those rules in full:
+    # `for child in ctx.getChildren(): if isinstance(child, malParser.StepContext): ...`
+    walks_children = any(
+        isinstance(n, (ast.For, ast.comprehension)) and (
+            (isinstance(n.iter, ast.Call) and isinstance(n.iter.func, ast.Attribute) and n.iter.func.attr == 'getChildren'
+             and isinstance(n.iter.func.value, ast.Name) and n.iter.func.value.id == ctxn) or
+            (isinstance(n.iter, ast.Attribute) and n.iter.attr == 'children' and isinstance(n.iter.value, ast.Name)
+             and n.iter.value.id == ctxn))
+        for n in ast.walk(f.node))
+    if walks_children:
+        for n in own_nodes(f.node):
+            if isinstance(n, ast.Call) and isinstance(n.func, ast.Name) and n.func.id == 'isinstance' and len(n.args) == 2:
+                t = n.args[1]
+                for e in (t.elts if isinstance(t, ast.Tuple) else [t]):
+                    nm = e.attr if isinstance(e, ast.Attribute) else (e.id if isinstance(e, ast.Name) else '')
+                    if nm.endswith('Context') and len(nm) > 7:
+                        rule = nm[:-7]
+                        add(rule[0].lower() + rule[1:], 'iter')
     # children[...] access
     children_idx = set()
     for n in own_nodes(f.node):
